@@ -410,6 +410,9 @@ class PlanJoinTablesQuery:
         item.sub_select.parentheses = False
         step = self.planner.plan_select(item.sub_select)
 
+        # LIMIT of the query can be applied only to the leftmost operand of the join: not to a table after this sub-select
+        self.query_context['use_limit'] = False
+
         conditions = item.conditions
         if 'or' in self.query_context['binary_ops']:
             # not use conditions (same rule as in process_table)
